@@ -1576,7 +1576,7 @@ def small_node_tables(repo, run, rule, which):
             f = FDE(repo, stubs={'__init__'}, stub=lambda n, recv, a, k, log=log: log.append((list(a), dict(k))))
             r = fde_guard(lambda: f.call(fi, node_obj('r', 'RequiredNode'), v, idx=3))
             if v is None:
-                if r.raised or log != [([], {'idx': 3})]:
+                if r.raised or len(log) != 1 or log[0][1].get('idx') != 3 or log[0][0] not in ([], [3]):
                     bad.append('a !required node without a value: %s' % ('raises ' + r.raised if r.raised else 'base constructor calls %s, expected one with the remaining arguments' % log))
             elif r.raised != 'ValueError':
                 bad.append('a !required node given the value %r %s, expected ValueError' % (v, 'raises ' + r.raised if r.raised else 'is accepted (the value is dropped silently)'))
